@@ -284,10 +284,18 @@ impl GenerationPass for AvailableValuePass {
                     if node.calls_to().is_some() {
                         // The callee is free to use everything below the stack pointer
                         let curr_stack = node.reg_values_in().stack_offset();
-                        map = retain_values(map, |location, _| match (location, curr_stack) {
-                            (MemoryLocation::StackOffset(slot), Some(curr)) => *slot >= curr,
+                        // ... and the calling convention says nothing about the
+                        // CSRs: the callee may write them, and whatever they point to
+                        map = retain_values(map, |location, value| match (location, curr_stack) {
+                            (MemoryLocation::StackOffset(slot), Some(curr)) => {
+                                *slot >= curr && !matches!(value, AvailableValue::ValueInCsr(_))
+                            }
                             (MemoryLocation::StackOffset(_), None) => false,
-                            _ => true,
+                            (
+                                MemoryLocation::CsrRegister(_)
+                                | MemoryLocation::CsrRegisterValueOffset(..),
+                                _,
+                            ) => false,
                         });
                     }
                     map
@@ -324,9 +332,10 @@ impl GenerationPass for AvailableValuePass {
                     redefined |= Register::return_addr_set();
                 }
                 let rewritten_csr = written_csr(&node.node()).map(|(csr, _)| csr);
+                let any_csr_may_change = node.calls_to().is_some();
                 let still_valid = |value: &AvailableValue| {
                     !matches!(value, AvailableValue::RegisterWithScalar(reg, _) if redefined.contains(reg))
-                        && !matches!(value, AvailableValue::ValueInCsr(csr) | AvailableValue::MemoryAtCsr(csr, _) if Some(*csr) == rewritten_csr)
+                        && !matches!(value, AvailableValue::ValueInCsr(csr) | AvailableValue::MemoryAtCsr(csr, _) if Some(*csr) == rewritten_csr || any_csr_may_change)
                 };
                 // The zero register cannot be written: an instruction that names
                 // it as its destination leaves no value behind
